@@ -243,6 +243,18 @@ def run(ck):
                       "columns, whole columns missing; models without fit error / ranges, exact zeros, des-branch models) crossed with every branch layout; every model kind as fitted from two-branch data; "
                       "content observed through to_dict() and through the attributes; distinct = distinct generated content")
     ck.assumptions += ["python json module and pandas DataFrame.from_dict / to_dict", "Lean.Data.Json parser inside the driver"]
+    _attributes_section(ck, pg)         # E17 (new block below)
+
+
+# ---------------------------------------------------------------------------------------------------- E17: NEW BLOCK (begin)
+def _attributes_section(ck, pg):
+    """Export + import keeps what the ATTRIBUTES say (unit labels, temperature in kelvin, material, adsorbate, metadata, class), read directly and
+    not through `to_dict()` — the relation attributes <-> dictionary is `Model/Construct.toDict` (Props/C05/Construct.lean, Props/C06/Params.lean).
+    Lives in harness/pgv/constructlib.py."""
+    from pgv import constructlib
+    constructlib.json_attributes_oracle(ck, pg)
+    ck.cov["rule"] += " || attributes (E17): the seven unit labels, temperature [K], material, adsorbate, metadata and class read from the re-imported object's attributes"
+# ---------------------------------------------------------------------------------------------------- E17: NEW BLOCK (end)
 
 
 UNIT_ATTRS = ("pressure_mode", "pressure_unit", "loading_basis", "loading_unit", "material_basis", "material_unit", "temperature_unit")
